@@ -222,12 +222,22 @@ class C03(Check):
 
     # ------------------------------------------------------------------
     def _arr(self, scn, co, salt):
+        import numpy as np
         from sim import dsutil
         if scn["enc"] == "jpeg":
             return dsutil.ramp(scn["nchan"], co, salt)
         labels = scn["labels"] if scn["enc"] != "raw" else None
-        return dsutil.voxels(scn["dtype"], scn["nchan"], co, salt,
-                             labels or None)
+        arr = dsutil.voxels(scn["dtype"], scn["nchan"], co, salt,
+                            labels or None)
+        if scn["enc"] == "raw" and salt % 5 == 0:
+            # voxel values whose stored bytes begin like a container format
+            # (gzip / JPEG magic): they are just voxels
+            magic = [b"\x1f\x8b\x08\x00", b"\xff\xd8\xff\xe0",
+                     b"\x1f\x8b\x08\x08"][(salt // 5) % 3]
+            flat = arr.reshape(-1).view(np.uint8)
+            k = min(len(magic), flat.size)
+            flat[:k] = np.frombuffer(magic[:k], dtype=np.uint8)
+        return arr
 
     def _present(self, arr, how):
         """The same values handed over in another memory presentation: the
